@@ -1,4 +1,5 @@
-import AmcVerif.Lemmas.VecOpsA
+import AmcVerif.Lemmas.VecOpSpecs
+import AmcVerif.Lemmas.VecOpsC
 import AmcVerif.Lemmas.HelperPosts
 import AmcVerif.Bridge.VecLawsU8
 import AmcVerif.Bridge.VecLawsU16
@@ -86,7 +87,41 @@ theorem C09_resize_fill (count : Nat) (ref : Ref α) (v : α) (hv : RefOK cfg c 
   resizeFill_post L m c xs w count ref v h hf hv
 theorem C09_reserve (n : Nat) (hn : n ≤ cfg.ops.kMax) : Post (reserve cfg c n) m (StrongPost cfg Ok c m w xs xs ()) :=
   reserve_post L m c xs w n h hf hn
+theorem C09_insert (p : Nat) (hp : p ≤ xs.length) (arg : Arg α) (v : α) (hv : ArgOK cfg c m w xs arg v) :
+    Post (insertOne cfg c p arg) m (StrongPost cfg Ok c m w xs (xs.take p ++ v :: xs.drop p) p) :=
+  insertOne_post L m c xs w h hf p hp arg v hv
+theorem C09_emplace (p : Nat) (hp : p ≤ xs.length) (arg : Arg α) (v : α) (hv : ArgOK cfg c m w xs arg v) (ht : m.buf .tmp = some [.raw]) :
+    Post (emplace cfg c p arg) m
+      (fun res m' => StrongPost cfg Ok c m w xs (xs.take p ++ v :: xs.drop p) p res m' ∧ m'.buf .tmp = some [.raw]) :=
+  emplace_post L m c xs w h hf p hp arg v hv ht (regionOf_ne_tmp cfg c w)
+theorem C09_emplace_back (arg : Arg α) (v : α) (hv : ArgOK cfg c m w xs arg v) (ht : m.buf .tmp = some [.raw]) :
+    Post (emplaceBack cfg c arg) m (fun res m' => StrongPost cfg Ok c m w xs (xs ++ [v]) () res m' ∧ m'.buf .tmp = some [.raw]) :=
+  emplaceBack_post L m c xs w h hf arg v hv ht (regionOf_ne_tmp cfg c w)
+/-- insertion of several elements at `end()` -/
+theorem C09_insert_range_at_end (vals : List α) :
+    Post (insertRange cfg c xs.length vals) m (StrongPost cfg Ok c m w xs (xs ++ vals) xs.length) :=
+  insertRange_post L m c xs w xs.length (Nat.le_refl _) vals rfl h hf
+theorem C09_insert_count_at_end (count : Nat) (ref : Ref α) (v : α) (hv : RefOK cfg c m w xs ref v) :
+    Post (insertCount cfg c xs.length count ref) m (StrongPost cfg Ok c m w xs (xs ++ List.replicate count v) xs.length) :=
+  insertCount_end_post L m c xs w count ref v hv h hf
+/-- erase never throws: it always ends in the success branch of its `StrongPost` (elements are moved with noexcept moves) -/
+theorem C09_erase (p : Nat) (hp : p < xs.length) : Post (eraseOne cfg c p) m (StrongPost cfg Ok c m w xs (xs.eraseIdx p) p) :=
+  eraseOne_post L m c xs w h hf p hp
+/-- `assign`: basic guarantee — on a throw the container holds some valid sequence (no leak, no moved-from element, consistent size) -/
+theorem C09_assign_range (vals : List α) (hcat : m.cat ≠ .tc) : Post (assignRange cfg c vals) m (BasicPost cfg Ok c m w vals ()) :=
+  assignRange_post L m c xs w vals h hf hcat
+theorem C09_assign_fill (count : Nat) (x : α) (hcat : m.cat ≠ .tc) :
+    Post (assignFill cfg c count (.lit x)) m (BasicPost cfg Ok c m w (List.replicate count x) ()) :=
+  assignFill_post L m c xs w count (.lit x) x rfl ⟨x, rfl⟩ h hf hcat
 end ops
+
+/-- basic guarantee over whole histories: whatever throws, the history never commits a lifetime fault (nothing is leaked, destroyed
+    twice or read after being moved from), the container stays usable after every exception and ends in a valid state; operations
+    with the strong guarantee leave the list unchanged when they throw (`Trace.thrown` with `strong`) -/
+theorem C09_history {cfg : Cfg} {Ok : VB → Prop} (L : VecLaws α cfg Ok) (c : Nat) (ops : List (OpSpec α)) (hops : ∀ o ∈ ops, IsVecOp cfg o)
+    (m : Mem α) (xs : List α) (hv : VRep cfg Ok c m xs) (hi : HInv m) (hs : Safe cfg ops xs) (hcat : ∀ o ∈ ops, o.nonTC = true → m.cat ≠ .tc) :
+    Post (runHist cfg c ops) m (fun res m' => res = .ok () ∧ ∃ ys, Trace cfg ops xs ys ∧ VRep cfg Ok c m' ys ∧ HInv m' ∧ m'.cat = m.cat) :=
+  vector_history L c ops hops m xs hv hi hs hcat
 
 /- the law packages hold for the code as it is now (regenerated and re-proved on every run) -/
 theorem C09_laws_small_U8 (cfg : Cfg) (hfl : cfg.flavour = .small) (hops : cfg.ops = Gen.U8.svbOps) (hN : cfg.n < Gen.U8.kMax) (hN0 : 0 < cfg.n) :
